@@ -80,7 +80,7 @@ CHECKS = [
              "sum by C03); noise floor 1e-11/L^2."},
     {"id": "C07", "engine": "history-monitor", "design_ref": "DESIGN.md §3 C07, §2.2",
      "technique": "property-based testing over generated run histories (Hypothesis draws configuration, seed, budget) with a per-event invariant monitor on the real mediator loop",
-     "text": 'Every commit of instrumented runs (17 shipped configurations verbatim + parameter-edited variants + generated families G4 (N hard-disk dipoles, 2-D rotated velocities), G5 (cell system in a non-cubic box) G6 (hard-disk dipoles with point masses in cells, velocity components of either sign) and G7 (three-site water molecules in the molecule/atom mode-switching wiring of dipole_motion.ini), 160 histories x 300-1500 events quick, 2560 x up to 6000 thorough): monotone event time, trajectory continuity of every unit at the event time modulo the box, resting units bit-identical, exactly one moving chain at the configured speed, positions in the box, identities/charges unchanged. One recorded known finding (known_findings.json, DESIGN.md 8.2): the periodic-direction end-of-chain handler aborts on a rounding-level overshoot of its chain time when another periodic event falls on the same non-dyadic time.',
+     "text": 'Every commit of instrumented runs (17 shipped configurations verbatim + parameter-edited variants + generated families G4 (N hard-disk dipoles, 2-D rotated velocities), G5 (cell system in a non-cubic box) G6 (hard-disk dipoles with point masses in cells, velocity components of either sign) and G7 (three-site water molecules in the molecule/atom mode-switching wiring of dipole_motion.ini), 160 histories x 300-1500 events quick, 2560 x up to 6000 thorough): monotone event time, trajectory continuity of every unit at the event time modulo the box, resting units bit-identical, exactly one moving chain at the configured speed, positions in the box, identities/charges unchanged. Sub-check time_slice_helper: the shared time-slicing helper on directly drawn units (wall coordinates, velocity residues of rotations) against exact arithmetic. One recorded known finding (known_findings.json, DESIGN.md 8.2): the periodic-direction end-of-chain handler aborts on a rounding-level overshoot of its chain time when another periodic event falls on the same non-dyadic time.',
      "note": "Trusted: vlib/monitor.py (harness-side recomputation of trajectories with the code's own Time subtraction), instance-attribute wrappers of vlib/engine.py, private reads Mediator._state_handler/_scheduler/_activator/_input_output_handler and Activator._taggers/_internal_states. Since the repair of the nearby-cells ordering (fix 55b0c76) runs with cell systems are a pure function of the drawn case; should Hypothesis still report a non-reproducible failure the first observed violation is reported with a note. Generated configurations edit parameters of shipped files only; hard_disk_dipoles(.ini|_cells.ini) need MDAnalysis and are not runnable here."},
     {"id": "C08", "engine": "history-monitor", "design_ref": "DESIGN.md §3 C08, §2.2",
      "technique": "property-based testing over generated run histories (Hypothesis draws configuration, seed, budget) with a per-event invariant monitor on the real mediator loop",
